@@ -32,12 +32,24 @@ extern "C" void __tsan_release(void *addr);
 
 namespace {
 enum Want { W_NONE, W_LOCK, W_JOIN, W_SLEEP, W_YIELD, W_START };
-struct Th { int id; pthread_t pt; int baton; Want want; const void *lock; int join_id; long long wake; bool done, waiting; void *(*fn)(void *); void *arg; int last_tag; int reads; unsigned long reads_progress; };
+struct Th { int id; pthread_t pt; int baton; Want want; const void *lock; int join_id; long long wake; bool done, waiting; void *(*fn)(void *); void *arg; int last_tag; int reads; unsigned long reads_progress; bool dirty; };
 const int MAXT = 24;
 const long long VNOW0 = 1700000000LL * 1000000000LL;
-Th th[MAXT]; int nth = 0; bool active = false; long long vnow = VNOW0;
-std::string tracebuf;	// trace_fd == -2: the trace is kept in memory (in-process executions, see explore.hpp)
-std::map<const void *, int> owner;
+Th th[MAXT]; int nth = 0; bool active = false, suspended = false; long long vnow = VNOW0;
+// trace_fd == -2: the trace is kept in memory (in-process executions, see explore.hpp).  A plain array filled by a byte loop
+// through a volatile pointer: every thread appends to it under the baton, which ThreadSanitizer cannot see, so the buffer must
+// not be touched through intercepted functions (memcpy inside std::string::append was reported as a race between threads).
+const size_t TBUF_SZ = 8u << 20; char tbuf[TBUF_SZ]; size_t tlen = 0;
+// lock table: lock address -> owning thread.  A fixed array, not a std::map: nodes allocated by one thread and freed by
+// another under the baton look like a race on the heap block to ThreadSanitizer (operator new/delete are intercepted).
+struct Owners {
+	enum { N = 256 }; const void *k[N]; int v[N]; int n = 0;
+	int idx(const void *l) const { for (int i = 0; i < n; i++) if (k[i] == l) return i; return -1; }
+	bool has(const void *l) const { return idx(l) >= 0; }
+	void set(const void *l, int t) { int i = idx(l); if (i < 0) { if (n >= N) { _exit(9); } i = n++; k[i] = l; } v[i] = t; }
+	void erase(const void *l) { int i = idx(l); if (i >= 0) { k[i] = k[n - 1]; v[i] = v[n - 1]; --n; } }
+	void clear() { n = 0; }
+} owner;
 std::vector<int> prefix; size_t step = 0; int trace_fd = -1; unsigned long progress = 0; unsigned long seen_progress[MAXT];
 long max_steps = 200000;
 __thread int my_id = -1;
@@ -47,12 +59,12 @@ uint64_t (*state_hash_fn)() = nullptr;
 
 void fwait(int *a) { while (__atomic_load_n(a, __ATOMIC_ACQUIRE) == 0) syscall(SYS_futex, a, FUTEX_WAIT, 0, 0, 0, 0); __atomic_store_n(a, 0, __ATOMIC_RELEASE); }
 void fwake(int *a) { __atomic_store_n(a, 1, __ATOMIC_RELEASE); syscall(SYS_futex, a, FUTEX_WAKE, 1, 0, 0, 0); }
-void tr(const char *s) { if (trace_fd == -2) tracebuf.append(s); else if (trace_fd >= 0) { ssize_t r = syscall(SYS_write, trace_fd, s, strlen(s)); (void)r; } }
+void tr(const char *s) { if (trace_fd == -2) { volatile char *d = tbuf; while (*s && tlen + 1 < TBUF_SZ) d[tlen++] = *s++; } else if (trace_fd >= 0) { ssize_t r = syscall(SYS_write, trace_fd, s, strlen(s)); (void)r; } }
 bool enabled(Th& t)
 {
 	if (t.done) return false;
 	switch (t.want) {
-	case W_LOCK: return owner.find(t.lock) == owner.end();
+	case W_LOCK: return !owner.has(t.lock);
 	case W_JOIN: return th[t.join_id].done;
 	case W_SLEEP: return vnow >= t.wake;
 	case W_YIELD: return !t.waiting || seen_progress[t.id] != progress;
@@ -65,6 +77,9 @@ void die(const char *m) { char b[64]; snprintf(b, sizeof b, "E %s\n", m); tr(b);
 void reschedule()
 {
 	Th& me = th[my_id];
+	// the write announced by this thread's previous vs_point has happened by now: threads parked in a spin loop that looked
+	// between the announcement and the write must be woken (otherwise a publish followed by a blocking call is a lost wake-up)
+	if (me.dirty) { me.dirty = false; ++progress; }
 	for (;;) {
 		int en[MAXT], ne = 0;
 		if (enabled(me)) en[ne++] = my_id;
@@ -84,7 +99,7 @@ void reschedule()
 		}
 		++step;
 		int nxt = en[c]; Th& n = th[nxt];
-		if (n.want == W_LOCK) owner[n.lock] = nxt;
+		if (n.want == W_LOCK) owner.set(n.lock, nxt);
 		if (n.want == W_YIELD) seen_progress[nxt] = progress;
 		n.want = W_NONE;
 		if (nxt == my_id) return;
@@ -96,19 +111,19 @@ void reschedule()
 }
 void point(Want w) { th[my_id].want = w; reschedule(); }
 void *tramp(void *p) { Th *t = (Th *)p; my_id = t->id; fwait(&t->baton); void *r = t->fn(t->arg); t->done = true; ++progress; reschedule(); return r; }
-inline bool on() { return active && my_id >= 0; }
+inline bool on() { return active && !suspended && my_id >= 0; }
 }
 
 extern "C" {
 void vs_begin(const int *pre, int n, int tfd)
 {
-	prefix.assign(pre, pre + n); trace_fd = tfd; step = 0; nth = 1; owner.clear(); progress = 0; vnow = VNOW0; tracebuf.clear();
-	memset(th, 0, sizeof th); memset(seen_progress, 0, sizeof seen_progress); th[0].id = 0; th[0].pt = pthread_self(); my_id = 0; active = true;
+	prefix.assign(pre, pre + n); trace_fd = tfd; step = 0; nth = 1; owner.clear(); progress = 0; vnow = VNOW0; tlen = 0;
+	suspended = false; memset(th, 0, sizeof th); memset(seen_progress, 0, sizeof seen_progress); th[0].id = 0; th[0].pt = pthread_self(); my_id = 0; active = true;
 }
 void vs_end() { active = false; tr("E OK\n"); }
-const char *vs_trace_buf(size_t *len) { *len = tracebuf.size(); return tracebuf.data(); }
+const char *vs_trace_buf(size_t *len) { *len = tlen; return tbuf; }
 int vs_leftover() { int k = 0; for (int i = 1; i < nth; i++) if (!th[i].done) ++k; return k; }
-void vs_point(int tag) { if (on()) { th[my_id].last_tag = tag; ++progress; th[my_id].reads = 0; point(W_NONE); } }
+void vs_point(int tag) { if (on()) { th[my_id].last_tag = tag; ++progress; th[my_id].reads = 0; point(W_NONE); th[my_id].dirty = true; } }
 // read-only point: does not count as progress; a thread that keeps reading without anybody changing shared state is
 // spinning (FastFlow's retry loops have no yield) and is parked until some other thread makes progress
 void vs_point_r(int tag)
@@ -125,6 +140,7 @@ void vs_set_now(long long t) { vnow = t; }
 int vs_self() { return my_id; }
 int vs_active() { return on(); }
 void vs_set_max_steps(long n) { max_steps = n; }
+void vs_suspend(int s) { suspended = s != 0; }
 
 int pthread_create(pthread_t *t, const pthread_attr_t *a, void *(*fn)(void *), void *arg)
 {
@@ -148,7 +164,7 @@ int pthread_join(pthread_t t, void **r)
 }
 static int lk(const void *l) { if (!on()) return 0; th[my_id].lock = l; th[my_id].last_tag = -3; point(W_LOCK); TSAN_ACQ(l); return 0; }
 static int ulk(const void *l) { if (!on()) return 0; TSAN_REL(l); owner.erase(l); ++progress; th[my_id].last_tag = -4; point(W_NONE); return 0; }
-static int tlk(const void *l) { if (!on()) return 0; th[my_id].last_tag = -5; point(W_NONE); if (owner.count(l)) return EBUSY; owner[l] = my_id; TSAN_ACQ(l); return 0; }
+static int tlk(const void *l) { if (!on()) return 0; th[my_id].last_tag = -5; point(W_NONE); if (owner.has(l)) return EBUSY; owner.set(l, my_id); TSAN_ACQ(l); return 0; }
 int pthread_spin_lock(pthread_spinlock_t *l) { return lk((const void *)l); }
 int pthread_spin_unlock(pthread_spinlock_t *l) { return ulk((const void *)l); }
 int pthread_spin_trylock(pthread_spinlock_t *l) { return tlk((const void *)l); }
